@@ -406,10 +406,11 @@ class RequestWideParams(object):
         # TODO(efried): Make it an error to specify limit more than once -
         #  maybe when we make group_policy optional.
         limit = req.GET.getall('limit')
-        # JSONschema has already confirmed that limit has the form
+        # JSONschema has already confirmed that limit (the last value, if it
+        # is given more than once: dict(req.GET) keeps that one) has the form
         # of an integer.
         if limit:
-            limit = int(limit[0])
+            limit = int(limit[-1])
 
         # TODO(efried): Make it an error to specify group_policy more than once
         #  - maybe when we make it optional.
